@@ -3,9 +3,13 @@
 import json, os, re, sys
 ROOT = os.path.dirname(os.path.dirname(os.path.abspath(__file__)))
 props = {json.loads(l)["id"]: json.loads(l) for l in open(os.path.join(ROOT, "properties.jsonl"))}
-for pid in sorted(props):
-    d = os.path.join(ROOT, "seeded", pid)
-    log = os.path.join(ROOT, "work", f"seedcheck-{pid}.log")
+names = sorted(os.listdir(os.path.join(ROOT, "seeded")))
+for name in names:
+    pid = name[:3]
+    if pid not in props:
+        continue
+    d = os.path.join(ROOT, "seeded", name)
+    log = os.path.join(ROOT, "work", f"seedcheck-{name}.log")
     if not os.path.isdir(d) or not os.path.exists(log):
         continue
     lines = [l.rstrip("\n") for l in open(log)]
@@ -25,11 +29,11 @@ for pid in sorted(props):
                 "scratch copy of /repo + tests/seed_demo.rs: cargo test --offline --test seed_demo  (must pass)",
                 "patch -p1 < patch.diff ; cargo test --workspace --no-fail-fast --offline  (existing 73 tests must pass)",
                 "cargo test --offline --test seed_demo  (must fail)",
-                "./selftest.sh seeded/%s/patch.diff <check id> quick [thorough]" % pid,
+                "./selftest.sh seeded/%s/patch.diff <check id> quick [thorough]" % name,
             ],
         },
         "checks_run_against_it": caught,
         "first_failure_reported": [f[:400] for f in fails],
     }
     json.dump(meta, open(os.path.join(d, "meta.json"), "w"), indent=1)
-    print(pid, "; ".join(c.split("patch.diff")[-1].strip() + " [" + c.split()[1] + "]" for c in caught))
+    print(name, "; ".join(c.split("patch.diff")[-1].strip() + " [" + c.split()[1] + "]" for c in caught))
